@@ -12,6 +12,7 @@ import Driver.IO
 import Driver.Rm
 import Driver.Regex
 import Driver.Lock
+import Driver.Cfg
 
 def dispatch (line : String) : String :=
   match (line.trimAscii.toString.splitOn " ").filter (· ≠ "") with
@@ -34,6 +35,7 @@ def dispatch (line : String) : String :=
   | "rm" :: rest => Driver.Rm.handle rest
   | "excl" :: rest => Driver.Regex.handle rest
   | "lockev" :: rest => Driver.Lock.handle rest
+  | "cfg" :: rest => Driver.Cfg.handle rest
   | _ => "bad-op"
 
 partial def loop (hin hout : IO.FS.Stream) : IO Unit := do
